@@ -20,7 +20,8 @@ run bit-for-bit against the real event-loop arms by component `sys`) and then di
   cumulative-ACK high-water mark, `in_flight_packets = packet_log.len()`), window in `[1000, 60000]`,
   `in_flight ≥ 0`, and every queued sequence number is a 31-bit SRT data number.
   `SysInv_fresh` (links as built by `SrtlaConnection::new_registering`), `SysInv_step` (EVERY event
-  constructor: client, uplink, flush, hk, setCfg, crit, failNext, failBind, stamp, syncTimeout), `SysInv_run`; exported as
+  constructor: client, uplink, flush, hk, setCfg, crit, failNext, failBind, stamp, syncTimeout, reload), `SysInv_run`;
+  exported as
   `C02_inv_sys` and `C06_range_sys`.  Any `Scalar` instance — `Float` included.
 * `QualInv s` — the cached quality multiplier of every link is in `[0.35, 1.1·1.03]`: `QualInv_step`,
   `QualInv_run` for the scalar code read in an ordered field under `ExpLaw e` (exact arithmetic; IEEE
@@ -48,8 +49,10 @@ The classifier / link-CC verdict stamps after housekeeping (`conn.weak`, `conn.l
 the event): every run-level theorem here quantifies over runs with arbitrary verdict stamps between any
 two other events.  `stamp_only_touches_verdicts` (§1) is the frame of that event, field by field.
 
-What is NOT covered: operations that are not events of `Sys.step` (config reload's
-`apply_connection_changes` adds/removes links — C19).
+Config reload (`apply_connection_changes`, which removes and adds links) IS an event of `Sys.step` too
+(`Ev.reload`): the membership-form invariants here (`SysInv`, `QualInv`, `Stamped`, built on `step_all`) cover it —
+a retained link keeps its whole record, an added link is `new_registering`.  Only the statements that follow ONE
+link through a run by its INDEX carry `NoReload` / `isReload = false` (see `Lemmas/ReloadBasic.lean`).
 -/
 set_option linter.unusedSectionVars false
 
